@@ -29,6 +29,7 @@ type SrvConn struct {
 	Handle *simrt.Task // task running Server.Handle
 	// HandleReturned is set when Server.Handle returned.
 	HandleReturned bool
+	Sock           *simnet.SockReader // request direction through a real socket pair (C17)
 	nextTag        uint16
 	Msize          uint32
 	Version        uint32
@@ -45,19 +46,40 @@ func NewWorld(att p9.Attacher, fs *simfs.FS) *World {
 }
 
 // Connect opens a new connection and starts Server.Handle on it.
-func (w *World) Connect() *SrvConn {
+func (w *World) Connect() *SrvConn { return w.connect(false) }
+
+// ConnectSock is Connect with the request direction going through a real
+// socket pair, so that the server's receive path is vecnet's recvmsg path.
+func (w *World) ConnectSock() *SrvConn { return w.connect(true) }
+
+func (w *World) connect(sock bool) *SrvConn {
 	id := len(w.Conns)
 	c := &SrvConn{ID: id, W: w, nextTag: 1}
 	c.Net = simnet.NewConn(fmt.Sprintf("c%d", id))
+	if sock {
+		sr, err := simnet.NewSockReader(fmt.Sprintf("c%d.sock", id))
+		if err != nil {
+			panic("socketpair: " + err.Error())
+		}
+		c.Sock = sr
+		c.Net.C2S = sr.Identity()
+	}
 	c.Mon = NewConnMon(fmt.Sprintf("c%d", id), c.Net)
 	c.Mon.CheckReplies = true
+	if c.Sock != nil {
+		c.Sock.Obs = c.Mon
+	}
 	w.Conns = append(w.Conns, c)
 	cur := simrt.Current()
 	saved := cur.Local.Get("inherit.conn")
 	cur.Local.Set("inherit.conn", c)
 	c.Handle = simrt.GoNamed(fmt.Sprintf("srv%d", id), func() {
 		simrt.Current().Role = "server"
-		w.Srv.Handle(c.Net.B, c.Net.B)
+		if c.Sock != nil {
+			w.Srv.Handle(c.Sock, c.Net.B)
+		} else {
+			w.Srv.Handle(c.Net.B, c.Net.B)
+		}
 		c.HandleReturned = true
 	})
 	if saved == nil {
@@ -81,7 +103,7 @@ func (c *SrvConn) Tag() uint16 {
 // Send writes one request frame and returns its record.
 func (c *SrvConn) Send(tag uint16, m refcodec.Message) *FrameRec {
 	n := len(c.Mon.Req.Frames)
-	c.Net.A.Write(refcodec.Encode(tag, m))
+	c.SendRaw(refcodec.Encode(tag, m))
 	if len(c.Mon.Req.Frames) > n {
 		return c.Mon.Req.Frames[len(c.Mon.Req.Frames)-1]
 	}
@@ -89,7 +111,15 @@ func (c *SrvConn) Send(tag uint16, m refcodec.Message) *FrameRec {
 }
 
 // SendRaw writes arbitrary bytes.
-func (c *SrvConn) SendRaw(b []byte) { c.Net.A.Write(b) }
+func (c *SrvConn) SendRaw(b []byte) {
+	if c.Sock != nil {
+		c.Mon.Req.feed(simrt.Current(), b)
+		c.Sock.Feed(b)
+		simrt.Yield("feed socket")
+		return
+	}
+	c.Net.A.Write(b)
+}
 
 // Wait blocks until req has a reply (or the run deadlocks).
 func (c *SrvConn) Wait(req *FrameRec) *FrameRec {
@@ -132,6 +162,12 @@ func (c *SrvConn) Attach(fid uint32, aname string) refcodec.Message {
 func (c *SrvConn) Close() {
 	if !c.closed {
 		c.closed = true
+		if c.Sock != nil {
+			c.Sock.FinishFeed()
+			simrt.Yield("finish socket feed")
+			c.Net.S2C.CloseRead()
+			return
+		}
 		c.Net.A.Close()
 	}
 }
